@@ -1,15 +1,11 @@
 import os
 import vlib
 
-THEOREMS = []
+THEOREMS = ["Dispenso.DistRWLock." + t for t in ['C23_exclusion', 'C23_bit_owner_unique', 'C23_failed_try_lock_leaves_no_trace', 'C23_no_lost_wakeup', 'C23_only_draining_writer_parks', 'C23_quiescent_not_blocked']]
 
 
 def run(ctx, replay):
-    ctx.cov["rule"] = ("random producer plans (try_push / try_push_batch) and consumer plans (try_pop / try_pop_batch / "
-                       "size, empty, full) for capacities 1..4 (exact and power-of-two buffer sizes) under the deterministic "
-                       "scheduler; element construction/move are atomic events; every trace is replayed through the Lean "
-                       "model; oracle: popped sequence is a prefix of the pushed sequence, occupancy <= capacity, "
-                       "rejections only when full/empty at call start, lifetimes balance; distinct = (K, #pushed, #popped)")
+    ctx.cov["rule"] = ('2..4 threads performing random sequences of lock / try_lock / lock_shared(i) / try_lock_shared(i) with arbitrary slot indices on DistributedRWLockImpl<N>, N in {1,2,4,16}, under the deterministic scheduler; every trace replayed through the Lean model; oracle: occupancy counters, every slot word zero at the end (a failed try_lock leaves no trace), deadlock/livelock detector; distinct = (N, threads, plan)')
     if THEOREMS:
         ctx.prove("DispensoVerif.Props.C23", THEOREMS)
     else:
